@@ -218,8 +218,8 @@ def run(chk, opts):
     accepted = [c for c in specs if not c["rej"] and has_hard_request(c)]
     singles = [c for c in accepted if len(c["items"]) == 1]
     pairs = [c for c in accepted if len(c["items"]) == 2]
-    per_single = int(opts.get("per_single", 0)) or (len(runcfgs[3]) if thorough else 8)
-    npairs = int(opts.get("pairs", 0)) or (24000 if thorough else 3200)
+    per_single = int(opts.get("per_single", 0)) or (len(runcfgs[3]) if thorough else 6)
+    npairs = int(opts.get("pairs", 0)) or (24000 if thorough else 2400)
     picked = []
     for c in singles:
         cfgs = runcfgs[c["n"]]
